@@ -322,11 +322,40 @@ def smf_noise(mf):
         pass
 
 
+_SAME_OBJ = [0]
+
+
+def refused_save_first(mf):
+    """A save() of THIS file object that fails - a message the format cannot hold appended for the occasion, or a device that fills up
+    half way - is caught, the cause removed, and the file saved again: the second save must not notice the first."""
+    import mido
+    _SAME_OBJ[0] += 1
+    k = _SAME_OBJ[0] % 4
+    if k == 0 or not mf.tracks:
+        return
+    if k == 3:
+        try:
+            mf.save(file=_Full())
+        except Exception:  # noqa: BLE001
+            pass
+        return
+    tr = max(mf.tracks, key=len)
+    bad = mido.Message('clock', time=1) if k == 1 else mido.Message('note_on', note=9, velocity=9, time=-3)
+    tr.append(bad)
+    try:
+        mf.save(file=io.BytesIO())
+    except Exception:  # noqa: BLE001
+        pass
+    finally:
+        del tr[-1]
+
+
 def run_save(f, cs=0):
     """-> (ints for comparison with the model, bytes or None, exception or None)"""
     try:
         mf = file_obj(dict(f, charset=CHARSETS[cs]))
         smf_noise(mf)
+        refused_save_first(mf)
         buf = io.BytesIO()
         mf.save(file=buf)
         bs = buf.getvalue()
